@@ -1,5 +1,5 @@
 CONSTANTS MaxSyms = 4 Pairs = FALSE Emit = TRUE
 INIT Init
 NEXT Next
-INVARIANT Guards GuardsV EmitRows EmitRowsV HeaderRows
+INVARIANT Guards GuardsV EmitRows EmitRowsV HeaderRows HdRows
 CHECK_DEADLOCK FALSE
